@@ -248,6 +248,14 @@ class P:
         while self.peek() == '::':
             self.eat()
             name += '::' + self.eat()
+        if name == 'Vec' and self.peek() == '<':
+            self.eat()
+            inner = self.ty()
+            if self.peek() == '>>':
+                self.t[self.i] = ('op', '>')        # the other half closes the enclosing generic list
+            else:
+                self.eat('>')
+            return ('vec', inner)
         if self.peek() == '<':
             d = 0
             while True:
@@ -528,7 +536,8 @@ class P:
             if self.kind() == 'op' and nv in ('=', '+=', '-=', '*=', '/=', '%=', '>>=', '<<=', '^=', '&=', '|='):
                 op = self.eat()
                 r = self.expr()
-                self.eat(';')
+                if self.peek() != '}':          # the last assignment of a block may omit the semicolon
+                    self.eat(';')
                 stmts.append(('assign', e, op, r))
                 continue
             if nv == ';':
@@ -745,6 +754,7 @@ class FnEmitter:
         self.hints = {}                 # rust var -> rust type, for `let` bindings of untyped literals
         self.nloops = 0
         self.fuelvar = None             # lean name of the fuel parameter once a loop has been seen
+        self.objfns = {}                # (object type, method) -> ([rust arg types], rust return type)
         self.selftype = None            # name of the struct `Self` stands for (object-typed receivers only)
         self.lifted = {}                # root param -> {lean-ish name: rust type} of lifted accessor values
 
@@ -760,6 +770,12 @@ class FnEmitter:
     def lty(self, ty):
         if ty == 'bool':
             return 'Bool'
+        if isinstance(ty, str) and ty.startswith('fn:'):
+            return ty[3:]
+        if isinstance(ty, str) and ty.startswith('obj:'):
+            return ty[4:]
+        if isinstance(ty, str) and ty.startswith('list:'):
+            return 'List ' + paren(self.lty(ty[5:]))
         if ty == 'F':
             return 'F' if self.generic_f else 'Nat'
         if is_signed(ty):
@@ -811,6 +827,17 @@ class FnEmitter:
             if t in ('Self::PositiveInteger', 'B::PositiveInteger'):
                 return self.mod.rawty
             raise TranslateError('type %s' % t)
+        if t[0] in ('vec', 'slice'):
+            # a vector / slice of integers or of registered objects is a Lean list
+            et = t[1]
+            if et == 'Self' and self.selftype is not None:
+                et = self.selftype
+            if isinstance(et, str) and et in self.mod.objtypes:
+                return 'list:obj:' + et
+            e = self.norm_ty(et)
+            if not (isinstance(e, str) and e in INT_TYPES):
+                raise TranslateError('vector of %r' % (et,))
+            return 'list:' + e
         if t[0] == 'array':
             n = const_eval(t[2], self.mod.consts)
             return ('agg', [self.norm_ty(t[1])] * n)
@@ -869,6 +896,25 @@ class FnEmitter:
             if isinstance(want, tuple):
                 wants = want[1]
             return SV(items=[self.ev(x, env, w) for x, w in zip(e[1], wants)])
+        if k == 'objcall':
+            _, T, m, recv, args = e
+            x = self.ev(recv, env)
+            if x.agg or x.ty != 'obj:' + T:
+                raise TranslateError('receiver of %s::%s' % (T, m))
+            a, r = self.objsig_of(T, m)
+            f, fok = env.get('@fn:%s_%s' % (T, m)), env.get('@fn:%s_%s_ok' % (T, m))
+            if f is None or fok is None:
+                raise TranslateError('%s::%s is not available here' % (T, m))
+            svs = [self.ev(arg, env, t) for arg, t in zip(args, a)]
+            for sv, t in zip(svs, a):
+                if sv.agg or sv.ty != t:
+                    raise TranslateError('%s::%s: argument of type %r, expected %s' % (T, m, sv.ty, t))
+            argstr = ' '.join([paren(x.e)] + [paren(sv.e if sv.ty != 'bool' else 'decide (%s)' % sv.e) for sv in svs])
+            fv = frozenset().union(x.fv, f.fv, fok.fv, *[sv.fv for sv in svs])
+            self.ok('%s %s = true' % (fok.e, argstr), fv)
+            if r == 'bool':
+                return SV('%s %s = true' % (f.e, argstr), 'bool', fv)
+            return SV('%s %s' % (f.e, argstr), r, fv)
         if k == 'struct':
             sname = self.selftype if (e[1] == 'Self' and self.selftype is not None) else e[1]
             if sname not in self.mod.structs:
@@ -1081,6 +1127,19 @@ class FnEmitter:
             x = self.ev(recv, env)
             return SV(x.e, self.mod.rawty, x.fv)
         x = self.ev(recv, env, want)
+        if not x.agg and isinstance(x.ty, str) and x.ty.startswith('list:'):
+            if name == 'iter' and not args:
+                return x
+            if name == 'len' and not args:
+                return SV('List.length %s' % paren(x.e), 'usize', x.fv)
+            if name == 'is_empty' and not args:
+                return SV('List.isEmpty %s = true' % paren(x.e), 'bool', x.fv)
+            if name == 'chain' and len(args) == 1:
+                y = self.ev(args[0], env, x.ty)
+                if y.agg or y.ty != x.ty:
+                    raise TranslateError('chain of %r and %r' % (x.ty, y.ty))
+                return SV('%s ++ %s' % (paren(x.e), paren(y.e)), x.ty, x.fv | y.fv)
+            raise TranslateError('method %s of a vector' % name)
         if x.ty == 'F':
             if name in ('square', 'double'):
                 return self.f_op(name, [x])
@@ -1342,7 +1401,8 @@ class FnEmitter:
             elif k == 'for':
                 _, pat, rng, body = st
                 if rng[0] != 'range':
-                    raise TranslateError('for over non-range')
+                    self.forlist(pat, rng, body, env)
+                    continue
                 lo = const_eval_env(rng[1], env, self.mod.consts)
                 hi = const_eval_env(rng[2], env, self.mod.consts)
                 for i in range(lo, hi):
@@ -1355,6 +1415,10 @@ class FnEmitter:
             else:
                 raise TranslateError('statement %s' % k)
         if final is None:
+            return SV(items=[])
+        if final[0] == 'if' and final[3] is None:
+            # a trailing `if c { .. }` without `else` is a statement of unit type
+            self.ifstmt(final, env)
             return SV(items=[])
         if final[0] == 'return':
             return self.ev(final[1], env, want)
@@ -1427,6 +1491,7 @@ class FnEmitter:
         em = FnEmitter(self.mod, self.name + suffix, [], None, None, self.generic_f)
         em.hints = self.hints
         em.selftype = self.selftype
+        em.parent = self
         em.pvars = []
         sub = {}
         pmap = {}
@@ -1457,6 +1522,118 @@ class FnEmitter:
         for (g, c, fv) in em.oks:
             used |= set(fv)
         return used
+
+    def objsig_of(self, T, m):
+        em = self
+        while em is not None:
+            if (T, m) in getattr(em, 'objsig', {}):
+                return em.objsig[(T, m)]
+            em = getattr(em, 'parent', None)
+        raise TranslateError('%s::%s has no signature here' % (T, m))
+
+    def tybinder(self, ltys):
+        """`{T : Type} ` for every object type mentioned by the Lean types `ltys`."""
+        vs = [T for T in sorted(self.mod.objtypes) if any(re.search(r'\b%s\b' % re.escape(T), x) for x in ltys)]
+        return ''.join('{%s : Type} ' % T for T in vs)
+
+    def forlist(self, pat, rng, body, env):
+        """`for x in <vector>` as structural recursion over the list: `f.forK` (state after the loop) and
+        `f.forK_ok` (no panic on any iteration), with the body as `f.forK_body` / `f.forK_body_ok`."""
+        if self.generic_f:
+            raise TranslateError('loop in a field-generic function')
+        xs = self.ev(rng, env)
+        if xs.agg or not (isinstance(xs.ty, str) and xs.ty.startswith('list:')):
+            raise TranslateError('for over a value of type %r' % (xs.ty,))
+        et = xs.ty[5:]
+        if pat[0] != 'pvar':
+            raise TranslateError('pattern in a for over a vector')
+        self.nloops += 1
+        k = self.nloops
+        lvars = []
+        self.assigned_names(body, lvars)
+        lvars = [n for n in env if n in lvars and not isinstance(env[n], tuple)]
+        caps_all = [n for n in env if n not in lvars and not isinstance(env[n], tuple) and not env[n].agg]
+        names = lvars + caps_all
+        lname = '%s.for%d' % (self.name, k)
+        bem, benv, bmap = self.sub_emitter('.for%d_body' % k, names, env)
+        esv = bem.param_sv(pat[1], et)
+        benv[pat[1]] = esv
+        ev_ = list(esv.fv)[0]
+        bem.block(body, benv, None)
+        if bem.fuelvar is not None:
+            raise TranslateError('while loop inside a for over a vector')
+        if len(lvars) > 1:
+            bem.result = SV(items=[benv[n] for n in lvars])
+            bem.rty = ('agg', [env[n].ty for n in lvars])
+        elif len(lvars) == 1:
+            bem.result = benv[lvars[0]]
+            bem.rty = env[lvars[0]].ty
+        else:
+            bem.result = SV(items=[])
+            bem.rty = ('agg', [])
+        u = self.used_params(bem)
+        caps = [n for n in caps_all if bmap[n] in u]
+        keep = lvars + caps
+        bem.pvars = [ev_] + [bmap[n] for n in keep]
+        self.steps.append((RAW, bem.render()))
+        lt = [self.lty(env[n].ty) for n in lvars]
+        ct = [self.lty(env[n].ty) for n in caps]
+        elt = self.lty(et)
+        vs = ['x%d' % i for i in range(len(lvars))]
+        cs = ['c%d' % i for i in range(len(caps))]
+        capdecl = ' '.join('(%s : %s)' % (c, t) for c, t in zip(cs, ct))
+        binder = self.tybinder(ct + lt + [elt])
+        tup = '(' + ', '.join(vs) + ')' if len(vs) > 1 else (vs[0] if vs else '()')
+        def proj(r, i):
+            if len(vs) == 1:
+                return r
+            return '%s%s%s' % (r, '.2' * i, '.1' if i < len(vs) - 1 else '')
+        args_exc = ' '.join(['e'] + vs + cs)
+        rec = ' '.join(proj('r', i) for i in range(len(vs)))
+        csp = ' '.join(cs) + (' ' if cs else '')
+        arrow = ' → '.join(['List ' + paren(elt)] + lt)
+        pats0 = ', '.join(['[]'] + vs)
+        pats1 = ', '.join(['e :: rest'] + vs)
+        if lvars:
+            self.steps.append((RAW, '\n'.join([
+                '/-- `for` loop %d of `%s` over a vector: the loop-carried variables after the last element -/' % (k, self.name),
+                'def %s %s%s : %s → %s' % (lname, binder, capdecl, arrow, ' × '.join(lt)),
+                '  | %s => %s' % (pats0, tup),
+                '  | %s =>' % pats1,
+                '    let r := %s_body %s' % (lname, args_exc),
+                '    %s %srest %s' % (lname, csp, rec)])))
+            self.steps.append((RAW, '\n'.join([
+                'def %s_ok %s%s : %s → Bool' % (lname, binder, capdecl, arrow),
+                '  | %s => true' % pats0,
+                '  | %s =>' % pats1,
+                '    %s_body_ok %s &&' % (lname, args_exc),
+                '    (let r := %s_body %s' % (lname, args_exc),
+                '     %s_ok %srest %s)' % (lname, csp, rec)])))
+        else:
+            self.steps.append((RAW, '\n'.join([
+                '/-- `for` loop %d of `%s` over a vector (assertions only): no panic on any element -/' % (k, self.name),
+                'def %s_ok %s%s : %s → Bool' % (lname, binder, capdecl, arrow),
+                '  | [] => true',
+                '  | e :: rest => %s_body_ok %s && %s_ok %srest' % (lname, args_exc, lname, csp)])))
+        def arg(n):
+            sv = env[n]
+            return paren(sv.e if sv.ty != 'bool' else 'decide (%s)' % sv.e)
+        fv = frozenset(xs.fv).union(*[env[n].fv for n in keep]) if keep else frozenset(xs.fv)
+        callargs = ' '.join([arg(n) for n in caps] + [paren(xs.e)] + [arg(n) for n in lvars])
+        self.ok('%s_ok %s = true' % (lname, callargs), fv)
+        if not lvars:
+            return
+        prod = ' × '.join(lt)
+        tmp = self.fresh('lp')
+        args = [x for x in self.order if x in fv]
+        self.steps.append((tmp, args, prod, '%s %s' % (lname, callargs)))
+        self.lets.append((tmp, args))
+        self.order.append(tmp)
+        self.vartype[tmp] = prod
+        for i, n in enumerate(lvars):
+            ty = env[n].ty
+            pe = proj(tmp, i)
+            env[n] = self.bind(n, SV('%s = true' % pe, 'bool', [tmp]) if ty == 'bool' else SV(pe, ty, [tmp]))
 
     def whilestmt(self, cond, body, env):
         if self.generic_f:
@@ -1499,7 +1676,7 @@ class FnEmitter:
         cs = ['c%d' % i for i in range(len(caps))]
         nf = '(N : Nat) ' if need_fuel else ''
         na = 'N ' if need_fuel else ''
-        capdecl = ' '.join('(%s : %s)' % (c, t) for c, t in zip(cs, ct))
+        capdecl = self.tybinder(ct + lt) + ' '.join('(%s : %s)' % (c, t) for c, t in zip(cs, ct))
         tup = '(' + ', '.join(xs) + ')' if len(xs) > 1 else xs[0]
         def proj(r, i):
             if len(xs) == 1:
@@ -1571,12 +1748,28 @@ class FnEmitter:
             return (r[0], r[1] + '_' + e[2], t)
         return None
 
-    def lift(self, e, roots):
+    def iter_elem(self, e):
+        """rust element type of an (already lifted) iterator expression over lifted vectors, or None."""
+        if e[0] == 'path' and len(e[1]) == 1 and isinstance(e[1][0], str) and e[1][0].startswith('@'):
+            for root in self.lifted:
+                t = self.lifted[root].get(e[1][0][1:])
+                if t is not None and self.mod.is_vec(t):
+                    return t[1]
+            return None
+        if e[0] == 'method' and e[2] == 'iter' and not e[3]:
+            return self.iter_elem(e[1])
+        if e[0] == 'method' and e[2] == 'chain' and len(e[3]) == 1:
+            a, b = self.iter_elem(e[1]), self.iter_elem(e[3][0])
+            return a if a == b else None
+        return None
+
+    def lift(self, e, roots, objvars=None):
+        objvars = objvars or {}
         if isinstance(e, list):
-            return [self.lift(x, roots) for x in e]
+            return [self.lift(x, roots, objvars) for x in e]
         if not isinstance(e, tuple) or not e or not isinstance(e[0], str):
             return e
-        if e[0] == 'pvar' and e[1] in roots:
+        if e[0] == 'pvar' and (e[1] in roots or e[1] in objvars):
             raise TranslateError('local %s shadows an object-typed parameter' % e[1])
         if e[0] in ('path', 'method', 'field'):
             r = self.objref(e, roots)
@@ -1589,9 +1782,32 @@ class FnEmitter:
                     raise TranslateError('accessor %s has two types' % nm)
                 self.lifted[root][nm] = t
                 return ('path', ['@' + nm])
+        if e[0] == 'method' and e[1][0] == 'path' and len(e[1][1]) == 1 and e[1][1][0] in objvars:
+            # method call on an element of a vector of objects: the method becomes a function parameter
+            # `T_m : T -> args -> result` (with `T_m_ok` for its no-panic condition)
+            T = objvars[e[1][1][0]]
+            _n, params, ret = self.mod.method_sig(T, e[2])
+            if not params or params[0][0] != 'self' or ret is None or len(params) - 1 != len(e[3]):
+                raise TranslateError('%s::%s: unsupported signature' % (T, e[2]))
+            self.objfns[(T, e[2])] = ([p_[1] for p_ in params[1:]], ret)
+            return ('objcall', T, e[2], e[1], self.lift(e[3], roots, objvars))
+        if e[0] == 'path' and len(e[1]) == 1 and e[1][0] in objvars:
+            raise TranslateError('object element %s used as a whole' % e[1][0])
+        if e[0] == 'for':
+            _, pat, rng, body = e
+            rng2 = self.lift(rng, roots, objvars)
+            et = self.iter_elem(rng2) if isinstance(rng2, tuple) and rng2[0] != 'range' else None
+            ov = objvars
+            if isinstance(et, str) and self.mod.is_obj(et):
+                if pat[0] != 'pvar':
+                    raise TranslateError('pattern over a vector of objects')
+                ov = dict(objvars)
+                ov[pat[1]] = et
+                return ('for', pat, rng2, self.lift(body, roots, ov))
+            return ('for', self.lift(pat, roots, objvars), rng2, self.lift(body, roots, objvars))
         if e[0] in ('path', 'int', 'bool'):
             return e
-        return tuple(self.lift(x, roots) if isinstance(x, (tuple, list)) else x for x in e)
+        return tuple(self.lift(x, roots, objvars) if isinstance(x, (tuple, list)) else x for x in e)
 
     # ---- driver
     def run(self):
@@ -1611,6 +1827,19 @@ class FnEmitter:
         if roots:
             self.lifted = dict((r, {}) for r in roots)
             self.body = self.lift(self.body, roots)
+        # methods called on the elements of a vector of objects: function parameters `T_m`, `T_m_ok`
+        self.objsig = {}
+        for (T, m) in sorted(self.objfns):
+            argtys, ret = self.objfns[(T, m)]
+            a = [self.norm_ty(x) for x in argtys]
+            r = self.norm_ty(ret)
+            for x in a + [r]:
+                if not (isinstance(x, str) and (x in INT_TYPES or x == 'bool')):
+                    raise TranslateError('%s::%s: argument / result of type %r' % (T, m, x))
+            self.objsig[(T, m)] = (a, r)
+            dom = [T] + [self.lty(x) for x in a]
+            env['@fn:%s_%s' % (T, m)] = self.param_sv('%s_%s' % (T, m), 'fn:' + ' → '.join(dom + [self.lty(r)]))
+            env['@fn:%s_%s_ok' % (T, m)] = self.param_sv('%s_%s_ok' % (T, m), 'fn:' + ' → '.join(dom + ['Bool']))
         for prm in self.params:
             pn, pt = prm[0], prm[1]
             if pn in roots:
@@ -1649,7 +1878,8 @@ class FnEmitter:
                 continue
             (v, args, lt, ex) = st
             ps = ' '.join('(%s : %s)' % (a, ptype(a)) for a in args)
-            out.append('def %s.s_%s %s%s : %s :=\n  %s' % (self.name, v, opar if 'O.' in ex else '', ps, lt, ex))
+            tb = self.tybinder([ptype(a) for a in args] + [lt])
+            out.append('def %s.s_%s %s%s%s : %s :=\n  %s' % (self.name, v, opar if 'O.' in ex else '', tb, ps, lt, ex))
         def letchain():
             ls = []
             for (v, args) in self.lets:
@@ -1658,6 +1888,7 @@ class FnEmitter:
                 ls.append('  let %s := %s.s_%s %s%s' % (v, self.name, v, useO, ' '.join(args)))
             return ls
         ps = ' '.join('(%s : %s)' % (a, ptype(a)) for a in self.pvars)
+        ps = self.tybinder([ptype(a) for a in self.pvars]) + ps
         def render_res(sv):
             leaves = []
             def fl(x):
@@ -1753,8 +1984,10 @@ class ModuleCtx:
         return None
 
     def is_obj(self, t):
-        return isinstance(t, str) and (t in self.objtypes or t == 'Vec<>') or \
-            (isinstance(t, tuple) and t[0] == 'slice')
+        return isinstance(t, str) and t in self.objtypes
+
+    def is_vec(self, t):
+        return isinstance(t, tuple) and t[0] in ('vec', 'slice')
 
     def struct_fields(self, name):
         it = self.find('struct', lambda k: k == 'struct ' + name)
@@ -1763,7 +1996,7 @@ class ModuleCtx:
         return parse_struct(it)
 
     def field_type(self, t, f):
-        if not isinstance(t, str) or t == 'Vec<>':
+        if not isinstance(t, str):
             raise TranslateError('field %s of %r' % (f, t))
         for fn_, ft in self.struct_fields(t):
             if fn_ == f:
@@ -1772,17 +2005,16 @@ class ModuleCtx:
 
     def method_type(self, t, m):
         """declared return type of the zero-argument method `m` of the object type `t`."""
-        if t == 'Vec<>' or (isinstance(t, tuple) and t[0] == 'slice'):
-            if m == 'len':
-                return 'usize'
-            raise TranslateError('method %s of a vector' % m)
-        it = self.find('fn', lambda k: re.sub(r'<[^>]*>', '', k) == t + '::' + m)
-        if it is None:
-            raise TranslateError('accessor %s::%s not found' % (t, m))
-        _name, params, ret = parse_sig(P(it.toks))
+        _name, params, ret = self.method_sig(t, m)
         if len(params) != 1 or params[0][0] != 'self' or ret is None:
             raise TranslateError('%s::%s is not a zero-argument accessor' % (t, m))
         return t if ret == 'Self' else ret
+
+    def method_sig(self, t, m):
+        it = self.find('fn', lambda k: re.sub(r'<[^>]*>', '', k) == t + '::' + m)
+        if it is None:
+            raise TranslateError('method %s::%s not found' % (t, m))
+        return parse_sig(P(it.toks))
 
     def fop(self, op):
         if op not in self.fops:
@@ -1822,6 +2054,11 @@ class ModuleCtx:
             self.out.append(em.render())
         except TranslateError as ex:
             raise TranslateError('%s :: %s: %s' % (self.path, key, ex))
+        except (KeyError, TypeError, IndexError, AttributeError, ValueError) as ex:
+            # anything the emitter did not anticipate is a translation failure, never a crash (fail closed)
+            raise TranslateError('%s :: %s: internal %s: %s' % (self.path, key, type(ex).__name__, ex))
+        if em.objfns:
+            return em           # takes function parameters: not callable from other translated items
         self.sigs[key] = (leanname, em.ptys, em.rty)
         self.sigs[key.split('::')[-1]] = (leanname, em.ptys, em.rty) if key.split('::')[-1] not in self.sigs else self.sigs[key.split('::')[-1]]
         return em
